@@ -10,6 +10,7 @@ from ..relang import Algebra, Unsupported
 from . import common_url as U
 from . import common_quote as Q
 from . import common_norm as NM
+from . import tables as TB
 
 SPEC = os.path.join(os.path.dirname(os.path.dirname(os.path.dirname(os.path.abspath(__file__)))), "spec", "irrelevant_reference.json")
 
@@ -433,7 +434,9 @@ def index_and_fragment(ctx, rule, n, spec):
                 if b[0] == "const" and isinstance(b[1], str) and a[0] == "item" and a[1][0] == "call" and a[1][1] in ("os.path.splitext", "posixpath.splitext"):
                     stems.add(b[1])
     for s in spec["index_stems"]:
-        ctx.ob(rule, "index-stem/%s" % s, s in stems, "a trailing %s.* page is no longer dropped by strip_index" % s, n.site, witness="http://a.com/x/%s.html" % s)
+        ctx.ob(rule, "index-stem/%s" % s, s in stems, "a trailing %s.* page is no longer dropped by strip_index" % s, n.site, witness="http://a.com/x/%s.html" % s,
+               cells=TB.expect(repo, "normalize_url", "normalize_url", [("http://a.com/x/%s.html" % s, "a.com/x"), ("http://a.com/%s.php" % s, "a.com"), ("http://a.com/x/%s" % s, "a.com/x"),
+                                                                       ("http://a.com/x/%s.html/y" % s, "a.com/x/%s.html/y" % s), ("http://a.com/x/my%s.html" % s, "a.com/x/my%s.html" % s)]))
     ref = nm.func("should_strip_fragment")
     ctx.fn(ref.qualname)
     for frag, routing in spec["fragments"].items():
